@@ -3,6 +3,7 @@ from . import rules_tok as T
 from . import rules_reader as RD
 from . import rules_buffer as B
 from . import rules_conserve as CV
+from . import rules_struct as S
 
 PROPS = {}
 
@@ -84,3 +85,38 @@ prop('C01',
      'raw and whole; R19.b/c/f tokenizer partition (includes the rollback of the spacer rule).',
      'everything value-level: that the text of each node is exactly the slice of the source; the repository samples '
      'and documentation examples are runtime inputs and are not touched.')
+
+
+prop('C10',
+     [T.r10_a, T.r10_b, S.r10_c],
+     'Assertions on the tokenizer dispatch table (abstract interpretation, see C19) for the windows that start with '
+     'a backslash or a percent sign, plus a rule on the set of token kinds the reader branches on.',
+     'R10.a a backslash followed by %% or by another backslash is always consumed together with it by an earlier rule '
+     '(so a %% after an odd run of backslashes is never at the cursor when the comment rule is consulted); R10.b an '
+     'unescaped %% yields one comment token that ends only at a line break or the end of input, contains no line '
+     'break, and no other token kind can contain an unescaped %%; R10.c the reader never branches on the comment '
+     'kind, so a comment reaches the tree only as a text leaf.',
+     'that search never matches a text leaf as a command (beyond R03.c); behaviour of the raw scan inside skipped '
+     'environments (excluded by the precondition of C11).')
+
+prop('C12',
+     [T.r12_a, S.r12_b, CV.t_agree, S.r12_c, S.r12_d, S.r12_e, T.r09_struct],
+     'Assertions on the tokenizer dispatch table for $ / $$ / backslash-bracket windows, agreement of the kind <-> '
+     'class <-> delimiter tables with the tokenizer, def-use rules on the math-region reader and the dispatcher, and '
+     'table rules for operators and sizing commands.',
+     'R12.a the six math switch kinds with their extents, escaped $ never a switch, $ in no other token; R12.b region '
+     'closes on the closing kind of the class selected by its opener and is read in math mode; T delimiter literals; '
+     'R12.c named math environments switch mode; R12.d brackets/parentheses structural only in argument position; '
+     'R12.e zero-argument operators and sizing-command table; R09.f brackets are single tokens never inside text.',
+     'the exact body text of a region; pairing when bodies contain the same switch.')
+
+prop('C09',
+     [T.r09_a, S.r09_b, S.r09_c, S.r09_d, S.r09_e, T.r09_struct, S.r12_d],
+     'Assertions on the tokenizer dispatch table for whitespace and delimiter windows, the cursor-movement summary '
+     'of the whitespace reader, conservation of the whitespace token on the break paths of the argument loops, a '
+     'taint rule on the whitespace variable and def-use rules on the group reader.',
+     'R09.a the merged-spacer token is blanks with at most one line break and is maximal; R09.b one whitespace read '
+     'per loop iteration, of at most one token; R09.c it is rolled back when nothing attaches; R09.d it never selects '
+     'the branch; R09.e a group closes only on its own kind; R09.f/R12.d delimiters are own tokens and brackets are '
+     'structural only in argument position.',
+     'maximality of the argument run and the effect of detaching separators (value-level).')
